@@ -944,6 +944,7 @@ struct Totals {
     seen_classes: HashSet<String>,
     earlier_packet_witness: Option<Value>,
     first_divergence: Option<String>,
+    stopped_on_leak: bool,
     per_run: Vec<Value>,
 }
 
@@ -1170,11 +1171,30 @@ fn explore(run: &vpc::Run, ctx: &Ctx, mode: Mode, tot: &mut Totals) {
             .collect();
         executed += 2 * next.len() as u64;
         tot.mem_checks += next.len() as u64;
+        let leaking = !mem.is_empty();
         for (i, class, detail) in mem {
             let h = next[i].h().to_vec();
             report(run, ctx, &mode, tot, &class, 1, "live heap bytes changed while replaying the history on one Defragmenter", &h, &detail);
         }
+        if leaking {
+            // a subject that leaks would make this process grow without bound: stop this exploration
+            // (the violation is recorded; the bound is reported as not completed)
+            capped = true;
+            tot.stopped_on_leak = true;
+            per_level.push(json!({"depth": level + 1, "new_states": next.len(), "stopped": "memory growth found"}));
+            break;
+        }
         phase[3] += tp.elapsed().as_secs_f64();
+        if !next.is_empty() {
+            // a written-out case per depth: the representative history of a newly found state
+            let nd = &next[next.len() / 2];
+            run.sample(16, || {
+                let fr: Vec<&Frame> = nd.h().iter().map(|&i| &ctx.frames[i as usize]).collect();
+                json!({"mtu": ctx.cfg.mtu, "queues": ctx.cfg.q, "mode": mode.name,
+                    "history": fr.iter().map(|f| f.name.clone()).collect::<Vec<_>>(),
+                    "results": exec_all(ctx.cfg.q, &fr).iter().map(|o| o.short()).collect::<Vec<_>>()})
+            });
+        }
         per_level.push(json!({"depth": level + 1, "new_states": next.len()}));
         frontier = next;
         if frontier.is_empty() {
@@ -1407,7 +1427,7 @@ pub fn run(args: &vpc::Args) -> ! {
         for p in &ctx.build_problems {
             run.violation("fragmenter:unexpected-honest-frames", p, json!({"scenario": "build", "mtu": cfg.mtu, "variant": cfg.variant.to_string()}));
         }
-        run.sample(2, || json!({"mtu": cfg.mtu, "queues": cfg.q, "alphabet": ctx.frames.iter().map(|f| f.name.clone()).collect::<Vec<_>>(),
+        run.sample(1, || json!({"mtu": cfg.mtu, "queues": cfg.q, "alphabet": ctx.frames.iter().map(|f| f.name.clone()).collect::<Vec<_>>(),
             "honest_packet_sizes": ctx.pkts.iter().map(|p| p.data.len()).collect::<Vec<_>>()}));
         // quick: the deepest Q=2 run only at the minimum MTU (cost)
         let d = if !thorough && cfg.q == 2 && cfg.mtu != MIN_MTU { full_depth[1] - 1 } else { full_depth[cfg.q - 1] };
@@ -1417,6 +1437,17 @@ pub fn run(args: &vpc::Args) -> ! {
         eprintln!("[c17] {:?} done at {:.1}s (states so far {}, executed {})", cfg, run.elapsed_s(), tot.states, tot.executed);
     }
 
+    // shows that the allocation counter sees the subject's buffers (Q x 65535 bytes + the queue vector)
+    let live_probe: Vec<i64> = [1usize, 2]
+        .iter()
+        .map(|&q| {
+            let b = live();
+            let d = new_defrag(q);
+            let l = live() - b;
+            drop(d);
+            l
+        })
+        .collect();
     let exhaustive = !tot.capped;
     if tot.capped && run.violation_count() == 0 {
         // The subject no longer behaves like the documented slot machine the de-duplication relies
@@ -1451,7 +1482,10 @@ pub fn run(args: &vpc::Args) -> ! {
         "first_mirror_divergence": tot.first_divergence,
         "merge_audits": tot.audits,
         "merge_audit_failures": tot.audit_failures,
-        "unmerged_state_cap_hit": tot.capped,
+        "unmerged_state_cap_hit": tot.capped && !tot.stopped_on_leak,
+        "stopped_because_subject_leaks_memory": tot.stopped_on_leak,
+        "memory_oracle_states_checked": tot.mem_checks,
+        "live_heap_bytes_of_a_defragmenter_q1_q2": live_probe,
         "first_witness_with_bytes_of_an_earlier_packet": tot.earlier_packet_witness,
         "runs": tot.per_run,
     });
